@@ -177,8 +177,6 @@ def check_spec(ctx, spec):
                     ctx.violation(f"unclassifiable block on page {p + 1}: {txt!r}", case, {"page": p})
                 return
             if role == "heading":
-                if has_null and b.texts[0] == "":
-                    continue        # an empty row for a null level is neither demanded nor forbidden
                 seq.append(("H", b.texts[0]))
             elif role == "data":
                 k = E.data_key(b)
@@ -208,6 +206,16 @@ def check_spec(ctx, spec):
     cont = 0
     multi_h = False
     for p, (exp, got) in enumerate(zip(expected, observed)):
+        if has_null:
+            # an empty row for a NULL level is neither demanded nor forbidden: such rows are dropped where no
+            # heading for an empty-string value is expected at that position
+            kept, i = [], 0
+            for g in got:
+                if g == ("H", "") and not (i < len(exp) and exp[i] == ("H", "")):
+                    continue
+                kept.append(g)
+                i += 1
+            got = kept
         ctx.count("pages_walked")
         ctx.count("headings_matched", sum(1 for e in exp if e[0] == "H"))
         if sum(1 for e in exp if e[0] == "H") >= 2:
@@ -367,7 +375,10 @@ def random_spec(rng):
         c = rng.choice(gcols) if gcols else None
         if c is not None:
             labels = sorted(set(c["values"]))
-            kind = rng.choice(["int", "float", "bool", "neardiv", "blanks", "null", "null"])
+            kind = rng.choice(["int", "float", "bool", "neardiv", "blanks", "null", "null", "floatx", "floatx",
+                               "empty"])
+            if E.DIVIDER in labels and c["name"] in (body.get("page_by") or []) and rng.random() < 0.5:
+                kind = "empty"
             if kind == "int":
                 m = {v: i for i, v in enumerate(labels)}
                 c["dtype"], c["values"] = "int", [m[v] for v in c["values"]]
@@ -381,6 +392,17 @@ def random_spec(rng):
                 alt = ["----- ", " -----", "------", "----", "- - -"]
                 m = {v: (alt[i % len(alt)] if i < 2 else v) for i, v in enumerate(rng.sample(labels, len(labels)))}
                 c["values"] = [m[v] for v in c["values"]]
+            elif kind == "floatx" and E.DIVIDER not in labels:
+                # a Float key column with NaN, the infinities and -0.0 among its values
+                G.float_keys(rng, c)
+            elif kind == "empty" and c["name"] in (body.get("page_by") or []):
+                # the empty string is a value like any other (next to a divider group in particular)
+                t = rng.choice([x for x in labels if x != E.DIVIDER] or labels)
+                vs = c["values"]
+                nxt = [vs[i] for i in range(len(vs) - 1) if vs[i + 1] == E.DIVIDER and vs[i] != E.DIVIDER]
+                if nxt and rng.random() < 0.7:
+                    t = nxt[0]          # the group right in front of a divider group
+                c["values"] = ["" if v == t else v for v in c["values"]]
             elif kind == "null" and c["name"] in (body.get("page_by") or []):
                 # one level value is missing (null) in one group, at any position
                 t = rng.choice(labels)
@@ -400,6 +422,32 @@ def random_spec(rng):
     return spec
 
 
+def adjacent_spec(rng):
+    """two page_by levels; the outer one steps through values that show nothing or next to nothing - the empty
+    string, the divider, null - and ordinary labels, in every order, while the inner value stays the same or
+    changes: every step is a new group (null and the divider alike excepted, see check_spec)"""
+    pool = ["", E.DIVIDER, None, "G0v0", "G0v1", "0"]
+    seq, prev = [], object()
+    for _ in range(rng.randint(2, 5)):
+        v = rng.choice([x for x in pool if x != prev and not ({x, prev} == {None, E.DIVIDER})])
+        seq.append(v)
+        prev = v
+    outer, inner = [], []
+    for v in seq:
+        ln = rng.randint(1, 3)
+        outer += [v] * ln
+        iv = rng.choice(["G1v0", "G1v0", "G1v1"])
+        inner += [iv] * ln
+    n = len(outer)
+    cols = [{"name": "N0", "dtype": "str", "values": outer}, {"name": "N1", "dtype": "str", "values": inner},
+            {"name": "N2", "dtype": "str", "values": [f"d{r}c2" for r in range(n)]}]
+    body = {"page_by": ["N0", "N1"]}
+    if rng.random() < 0.3:
+        body["pageby_header"] = rng.random() < 0.5
+    return {"kind": "table", "df": {"cols": cols}, "body": body, "title": None,
+            "page": {"nrow": rng.choice([40, 40, 12, 7])}, "colheader": rng.choice(["none", "default"])}
+
+
 def run_shard(desc, ctx):
     rng = random.Random(desc["seed"])
     if desc["kind"] == "enum":
@@ -411,6 +459,9 @@ def run_shard(desc, ctx):
             check_spec(ctx, random_spec(rng))
         for _ in range(max(10, desc["n"] // 6)):
             check_multi(ctx, multi_spec(rng))
+        for _ in range(max(20, desc["n"] // 4)):
+            ctx.count("adjacent_no_value_groups_docs")
+            check_spec(ctx, adjacent_spec(rng))
 
 
 def replay(data, ctx):
